@@ -3,6 +3,8 @@
 package main
 
 import (
+	"encoding/base64"
+	"math/rand"
 	"crypto/hmac"
 	"crypto/sha256"
 	"net/http"
@@ -55,6 +57,7 @@ func vValidateCase(out *vEmitter, label string, nontrivial bool, secret, name, v
 func driveC09(t *testing.T, out *vEmitter) {
 	vKeys()
 	defer driveC09Stores(t, out)
+	defer vC09NonRefreshing(t, out)
 	r := vRand()
 	secret := "0123456789abcdefghijklmnopqrstuv"
 	name := "_oauth2_proxy"
@@ -135,7 +138,14 @@ func driveC09Stores(t *testing.T, out *vEmitter) {
 					e.idp.onToken = func(url.Values) (int, string, string, error) { return 400, "application/json", `{"error":"invalid_grant"}`, nil }
 					created := time.Now().Add(-time.Duration(age) * time.Second)
 					expires := time.Now().Add(time.Hour)
-					s := &sessionsapi.SessionState{CreatedAt: &created, ExpiresOn: &expires, Email: "user@example.com", User: "u", AccessToken: "at",
+					at := "at"
+					if age == 5 || age == es-2 {
+						// a session large enough to be split over several cookies
+						rb := make([]byte, 4500)
+						rand.New(rand.NewSource(age + 7)).Read(rb)
+						at = base64.RawURLEncoding.EncodeToString(rb) // incompressible
+					}
+					s := &sessionsapi.SessionState{CreatedAt: &created, ExpiresOn: &expires, Email: "user@example.com", User: "u", AccessToken: at,
 						IDToken: vJWT(vKeyRSA, "RS256", vClaims("user@example.com", nil))}
 					rw := httptest.NewRecorder()
 					if err := e.p.sessionStore.Save(rw, httptest.NewRequest("GET", "https://app.example.com/", nil), s); err != nil {
@@ -254,6 +264,74 @@ func driveC09Stores(t *testing.T, out *vEmitter) {
 					}
 					out.Stat("refresh_resets", 1)
 				}
+			}
+		}
+	}
+}
+
+
+// vC09NonRefreshing: a provider that cannot refresh sessions and tells no token lifetime (the non-OIDC family; token
+// response in JSON or form encoding).  The proxy re-stamps the credential every cookie-refresh, so what ends the
+// session is the expiry the login gave it.  Real time is emulated: the stored session is rewritten as it would
+// stand after cookie-expire + 1 min of being re-stamped every refresh period, then presented.
+func vC09NonRefreshing(t *testing.T, out *vEmitter) {
+	for _, redis := range []bool{false, true} {
+		for _, enc := range []string{"json", "form"} {
+			e := vNewEnv(t, vEnvCfg{redis: redis, mod: func(o *options.Options) {
+				pr := &o.Providers[0]
+				pr.Type = "digitalocean"
+				pr.ID = "digitalocean=verif"
+				pr.ClientID = clientID
+				pr.ClientSecret = clientSecret
+				pr.LoginURL = vIssuer + "/do/authorize"
+				pr.RedeemURL = vIssuer + "/do/token"
+				pr.ProfileURL = vIssuer + "/do/account"
+				pr.ValidateURL = vIssuer + "/do/account"
+				o.Cookie.Expire = time.Hour
+				o.Cookie.Refresh = 10 * time.Minute
+				o.EmailDomains = []string{"*"}
+			}})
+			body := `{"access_token":"at-nonrefreshing","token_type":"bearer"}`
+			ctype := "application/json"
+			if enc == "form" {
+				body, ctype = "access_token=at-nonrefreshing&token_type=bearer", "application/x-www-form-urlencoded"
+			}
+			e.idp.onPath["/do/token"] = func(*http.Request) (int, string, string, error) { return 200, ctype, body, nil }
+			e.idp.onPath["/do/account"] = func(*http.Request) (int, string, string, error) {
+				return 200, "application/json", `{"account":{"email":"user@example.com"}}`, nil
+			}
+			b := e.newBrowser("https://app.example.com")
+			l := b.start("/")
+			cb := b.callback(l.State, "code")
+			if !e.sessionCookieSet(cb) {
+				out.Violation("lifetime/refresh-flow", "a login at a non-refreshing provider did not complete", map[string]interface{}{"status": cb.Status, "encoding": enc, "redis": redis})
+				continue
+			}
+			if r := b.get("/oauth2/auth"); r.Status != 202 {
+				out.Violation("lifetime/refresh-flow", "a fresh session of a non-refreshing provider is not honoured", map[string]interface{}{"status": r.Status, "encoding": enc, "redis": redis})
+				continue
+			}
+			rq := httptest.NewRequest("GET", "https://app.example.com/", nil)
+			rq.Header.Set("Cookie", b.cookieHeader("/"))
+			s, err := e.p.sessionStore.Load(rq)
+			if err != nil || s == nil {
+				continue
+			}
+			// cookie-expire + 1 min later, last re-stamped one refresh period + 1 min ago
+			elapsed := e.opts.Cookie.Expire + time.Minute
+			stamped := time.Now().Add(-e.opts.Cookie.Refresh - time.Minute)
+			s.CreatedAt = &stamped
+			if s.ExpiresOn != nil {
+				x := s.ExpiresOn.Add(-elapsed)
+				s.ExpiresOn = &x
+			}
+			vReseed(b, s)
+			r := b.get("/oauth2/auth")
+			out.Obs("non-refreshing", true, vL(vBool(redis), vY(enc), vI(int64(r.Status)), vBool(s.ExpiresOn != nil)))
+			out.Stat("non_refreshing_provider_runs", 1)
+			if r.Status == 202 {
+				out.Violation("lifetime/expired-session-honoured", "a session was honoured although cookie-expire has elapsed since it was issued",
+					map[string]interface{}{"redis": redis, "provider": "non-refreshing, token response " + enc, "session_has_expiry": s.ExpiresOn != nil})
 			}
 		}
 	}
